@@ -173,4 +173,116 @@ def mulMaxPlan (q zp : Int) (scaleBits : Nat) : Option MulMaxPlan :=
 def mulMaxPlanOld (q zp : Int) : MulMaxPlan :=
   if q ≥ 0 then .lrelu (q - zp) (q == 0) else if q = -1 then .abs else .keep
 
+/-! ## 2. PAD folded into the hardware padding of its consumer (`replace_pad_by_hw_pad`) -/
+
+inductive WindowKind where
+  | conv | depthwise | avgpool
+deriving Repr, DecidableEq, Inhabited
+
+/-- `_leading_pad_ok(leading_pad, stride, kernel_size)` -/
+def leadingPadOk (pad stride k : Nat) : Bool := pad == k / 2 || k / 2 ≤ stride || pad % stride == 0
+
+structure PadFoldIn where
+  kind : WindowKind
+  kw : Nat            -- dilated kernel width / height (`k.dilated_wh()`)
+  kh : Nat
+  sx : Nat
+  sy : Nat
+  top : Nat           -- PAD values `(padding[-3][0], padding[-2][0], padding[-3][1], padding[-2][1])`
+  left : Nat
+  bottom : Nat
+  right : Nat
+  validPadding : Bool -- `op.attrs["padding"] == Padding.VALID`
+  padSameType : Bool  -- `pad_op.ifm.dtype == pad_op.ofm.dtype`
+  padScalingEq : Bool -- `check_quantized_tens_scaling_equal(pad_op.ofm, pad_op.ifm)`
+  ifmU8 : Bool        -- IFM of the consumer is uint8 (average pool only)
+  ifmZp : Int         -- zero point of the consumer's IFM (average pool only)
+deriving Repr, Inhabited
+
+inductive PoolRounding where
+  | halfUp | awayZero
+deriving Repr, DecidableEq, Inhabited
+
+structure PadFoldOut where
+  explicit : Nat × Nat × Nat × Nat       -- `attrs["explicit_padding"] = (top, left, bottom, right)`
+  toDepthwise : Bool                     -- average pool → depthwise convolution with all-ones weights, weight scale 1 / (kw * kh)
+  rounding : Option PoolRounding
+  bias : Option Int                      -- every bias value: `zp * kh * kw` (signed types), 0 (uint8)
+deriving Repr, Inhabited, DecidableEq
+
+/-- `replace_pad_by_hw_pad` for a consumer whose producer is a PAD running on the NPU; `none`: the PAD stays -/
+def replacePadByHwPad (i : PadFoldIn) : Option PadFoldOut :=
+  if !i.validPadding || !i.padSameType || !i.padScalingEq then none
+  else if i.left > i.kw / 2 || i.right > i.kw / 2 || i.top > i.kh / 2 || i.bottom > i.kh / 2 then none
+  else if !leadingPadOk i.top i.sy i.kh || !leadingPadOk i.left i.sx i.kw then none
+  else
+    let ex := (i.top, i.left, i.bottom, i.right)
+    if i.kind == .avgpool && (i.top != 0 || i.left != 0 || i.bottom != 0 || i.right != 0) then
+      if [(i.left, i.kw), (i.right, i.kw), (i.top, i.kh), (i.bottom, i.kh)].any (fun (p, k) => p != 0 && p != k / 2) then none
+      else if i.ifmU8 then some ⟨ex, true, some .halfUp, some 0⟩
+      else some ⟨ex, true, some .awayZero, some (i.ifmZp * i.kh * i.kw)⟩
+    else some ⟨ex, false, none, none⟩
+
+/-! ## 3. FULLY_CONNECTED as a 1x1 convolution (`rewrite_fully_connected_input`, `convert_batched_fc_shape`) -/
+
+def prodL (l : List Nat) : Nat := l.foldl (· * ·) 1
+
+abbrev Shape4 := Nat × Nat × Nat × Nat       -- batch, height, width, depth
+
+/-- `Tensor.get_shape_as_2d(dimension_2_size)`; `dimension_2_size = 0` is a ZeroDivisionError (modelled as `none`) -/
+def shapeAs2d (shape : List Nat) (dim2 : Nat) : Option Shape4 :=
+  if dim2 = 0 then none else
+  let elms := prodL shape
+  let dim1 := elms / dim2
+  if dim1 * dim2 == elms && shape.length != 1 then some (dim1, 1, 1, dim2) else none
+
+/-- `batching_split = {4: (2, 2), 8: (2, 4), 16: (4, 4)}`, default `(1, n)` -/
+def batchingSplit (n : Nat) : Nat × Nat :=
+  if n = 4 then (2, 2) else if n = 8 then (2, 4) else if n = 16 then (4, 4) else (1, n)
+
+/-- both rewrites applied to a FullyConnected operator without a read shape: `(ifm_shapes[0], ofm_shapes[0], weights expanded to 4-D)`.
+    `none`: the assertion `new_shape is not None` fails. -/
+def rewriteFc (ifmTensorShape : List Nat) (weightsIn : Nat) (ofm : Shape4) : Option (Shape4 × Shape4 × Bool) :=
+  match shapeAs2d ifmTensorShape weightsIn with
+  | none => none
+  | some ifm =>
+    let (ob, oh, ow, od) := ofm
+    let ofm1 : Shape4 := if ifm.1 > 1 && ob == 1 then (oh * ow, 1, 1, od) else ofm
+    if ifm.1 > 1 then
+      let (h, w) := batchingSplit ifm.1
+      let (h2, w2) := batchingSplit ofm1.1
+      some ((1, h, w, ifm.2.2.2), (1, h2, w2, ofm1.2.2.2), true)
+    else some (ifm, ofm1, false)
+
+/-! ## 4. Concatenation as write offsets, split / slice as read offsets -/
+
+/-- `axis_4D = axis + (4 - len(shape))` for a non-negative axis; a negative axis indexes from the end -/
+def axis4D (rank : Nat) (axis : Int) : Option Nat :=
+  if axis ≥ 0 then (if axis.toNat < rank ∧ rank ≤ 4 then some (axis.toNat + (4 - rank)) else none)
+  else if (-axis).toNat ≤ 4 then some (4 - (-axis).toNat) else none
+
+/-- `rewrite_concat_ops`: write offset of every input along the concatenation axis (prefix sums of the axis sizes)
+    and the end offset the code asserts to be the OFM size -/
+def concatOffsets (sizes : List Nat) : List Nat × Nat :=
+  sizes.foldl (fun (acc : List Nat × Nat) d => (acc.1 ++ [acc.2], acc.2 + d)) ([], 0)
+
+/-- `rewrite_split_ops` for Split / SplitV / UnpackReshaped: read offset of output `idx` along the axis -/
+def splitOffset (sizes : List Nat) (idx : Nat) : Nat := (sizes.take idx).foldl (· + ·) 0
+
+/-- Slice / StridedSlice: read offset = begin, read shape = end - begin (per 4-D axis) -/
+def sliceRead (begin end_ : List Nat) : List Nat × List Nat := (begin, (end_.zip begin).map fun (e, b) => e - b)
+
+/-! ## 5. Depthwise convolution with IFM depth 1 as a convolution (`convert_depthwise_to_conv`) -/
+
+inductive DwPlan where
+  | keep            -- depth multiplier 1: untouched
+  | toConv          -- IFM depth 1, OFM depth = multiplier: Conv2DBias, weights transposed (0, 1, 3, 2)
+  | unsupported     -- UnsupportedFeatureError
+deriving Repr, DecidableEq, Inhabited
+
+def convertDepthwiseToConv (depthMultiplier ifmDepth ofmDepth : Nat) : DwPlan :=
+  if depthMultiplier = 1 then .keep
+  else if ifmDepth = 1 ∧ ofmDepth = depthMultiplier then .toConv
+  else .unsupported
+
 end VelaVerif.Rewrites
